@@ -13,21 +13,21 @@ Lemma R_fresh inp : R EofPad2 (fresh_ideal inp) fresh_buf (fresh_host inp).
 Proof. unfold R, fresh_ideal, fresh_buf, fresh_host; cbn. repeat split; auto; discriminate. Qed.
 
 (* any decoder program p: same status, same output bytes, whatever the input buffer size *)
-Theorem decoder_bufsize_independent {A} (p : sprog A) bufsize inp : 0 < bufsize ->
-  let '(r1, i') := ideal EofPad2 p (fresh_ideal inp) in
-  let '((r2, _), h') := exec (fresh_host inp) (buffered bufsize EofPad2 p fresh_buf) in
+Theorem decoder_bufsize_independent {A} (p : sprog A) bufsize hint inp : 0 < bufsize ->
+  let '(r1, i') := ideal EofPad2 hint p (fresh_ideal inp) in
+  let '((r2, _), h') := exec hint (fresh_host inp) (buffered bufsize EofPad2 p fresh_buf) in
   r1 = r2 /\ iout i' = out h'.
-Proof. intro Hb. apply (buffered_refines_ideal bufsize EofPad2 Hb p). apply R_fresh. Qed.
+Proof. intro Hb. apply (buffered_refines_ideal bufsize EofPad2 hint Hb p). apply R_fresh. Qed.
 
-Corollary decoder_two_bufsizes {A} (p : sprog A) b1 b2 inp : 0 < b1 -> 0 < b2 ->
-  let '((r1, _), h1) := exec (fresh_host inp) (buffered b1 EofPad2 p fresh_buf) in
-  let '((r2, _), h2) := exec (fresh_host inp) (buffered b2 EofPad2 p fresh_buf) in
+Corollary decoder_two_bufsizes {A} (p : sprog A) b1 b2 hint inp : 0 < b1 -> 0 < b2 ->
+  let '((r1, _), h1) := exec hint (fresh_host inp) (buffered b1 EofPad2 p fresh_buf) in
+  let '((r2, _), h2) := exec hint (fresh_host inp) (buffered b2 EofPad2 p fresh_buf) in
   r1 = r2 /\ out h1 = out h2.
 Proof.
-  intros H1 H2. pose proof (decoder_bufsize_independent p b1 inp H1) as P1.
-  pose proof (decoder_bufsize_independent p b2 inp H2) as P2.
-  destruct (ideal EofPad2 p (fresh_ideal inp)) as [r i'].
-  destruct (exec (fresh_host inp) (buffered b1 EofPad2 p fresh_buf)) as [[r1 ?] h1].
-  destruct (exec (fresh_host inp) (buffered b2 EofPad2 p fresh_buf)) as [[r2 ?] h2].
+  intros H1 H2. pose proof (decoder_bufsize_independent p b1 hint inp H1) as P1.
+  pose proof (decoder_bufsize_independent p b2 hint inp H2) as P2.
+  destruct (ideal EofPad2 hint p (fresh_ideal inp)) as [r i'].
+  destruct (exec hint (fresh_host inp) (buffered b1 EofPad2 p fresh_buf)) as [[r1 ?] h1].
+  destruct (exec hint (fresh_host inp) (buffered b2 EofPad2 p fresh_buf)) as [[r2 ?] h2].
   destruct P1 as [A1 B1], P2 as [A2 B2]. split; congruence.
 Qed.
